@@ -18,6 +18,7 @@ SPIN_READS = 2000          # clock reads in one slice without blocking => "spin"
 SPIN_SLICES_KILL = 20      # forced yields in a row before the thread is declared livelocked
 
 CURRENT = None             # the Sim the seams delegate to (one at a time per process)
+ZOMBIES = 0                # real threads of earlier runs in this process that could not be stopped (they keep burning CPU)
 
 
 class SimKilled(BaseException):
@@ -184,6 +185,8 @@ class Sim:
             self.current = None
             if not stopped:
                 th.dead = True
+                global ZOMBIES
+                ZOMBIES += 1
             if site:
                 self.hung.append((th.name, site))
                 self.log('hang', th.name, site)
@@ -253,6 +256,9 @@ class Sim:
         stash = []
         while not th.done and not th.dead:
             if not self.heap:
+                if th.parked_at in ('queue.put', 'lock', 'queue.get', 'join'):
+                    # nothing is left that could ever wake it: the call blocks for good inside the library
+                    raise LibraryHang(name, 'blocked for ever in %s at %s' % (th.parked_at, _library_site(th) or '?'))
                 raise HarnessError('application call never returned')
             if self.heap[0][3] in defer:
                 stash.append(heapq.heappop(self.heap))
